@@ -172,8 +172,13 @@ def _run_one(mod, case):
         # a step the harness expects to succeed (it does on a correct tree)
         # is a verdict about the library; anything else is a harness bug.
         tb = traceback.extract_tb(e.__traceback__)
-        lib = [f for f in tb if f.filename.startswith(REPO + "/")]
-        if lib and tb[-1].filename.startswith((REPO + "/", "/venv/", "/root/")):
+        last_harness = max([i for i, f in enumerate(tb)
+                            if f.filename.startswith(VERIF + "/")] or [-1])
+        lib = [f for f in tb[last_harness + 1:]
+               if f.filename.startswith(REPO + "/")]
+        # (the innermost harness frame called into the library, and the
+        # exception came out of that call)
+        if lib:
             where = lib[-1].name
             return {
                 "nontrivial": False, "outcome": "unexpected-exception",
